@@ -198,6 +198,28 @@ pub fn run(ctx: &Ctx) -> Report {
     }
     std_.samples.truncate(1);
     total.merge(std_);
+    // expressions without action that look as if they selected everything: wildcard-only patterns
+    // (each '?' still needs a character: the files a and b have one), constant tests, and their
+    // conjunctions - the implicit print prints exactly the files for which the expression is true
+    let mut stw = Stats::new();
+    let pats = ["*", "**", "?", "*?", "?*", "??", "*??", "??*", "?*?", "*???", "[!z]", "[!z]*", "a*", "*a"];
+    for p in pats {
+        for q in ["*", "*??", "?"] {
+            for t in [
+                E::T(Tst::Name(p.into())),
+                E::and(E::T(Tst::True), E::T(Tst::IName(p.into()))),
+                E::list(E::T(Tst::Name(p.into())), E::T(Tst::True)),
+                E::and(E::T(Tst::Name(p.into())), E::T(Tst::IName(q.into()))),
+                E::list(E::T(Tst::Path(p.into())), E::T(Tst::Name(q.into()))),
+                E::or(E::T(Tst::Name(p.into())), E::T(Tst::Name(q.into()))),
+            ] {
+                let v = judge(&t, stable_hash(&t) % 3 == 0);
+                stw.record(&v, stable_hash(&t), true, || case_json(&t, false));
+            }
+        }
+    }
+    stw.samples.truncate(1);
+    total.merge(stw);
     // interaction triples: three supported leaf kinds under every operator skeleton
     let tr = crate::combo::run_triples(ctx.seed, &crate::combo::supported_kinds(), ctx.tier.pick(32, 2), |t| judge(t, stable_hash(t) % 4 == 0), |t| case_json(t, stable_hash(t) % 4 == 0));
     total.merge(tr);
